@@ -301,8 +301,8 @@ func (s *Server) readMessage() (json.RawMessage, error) {
 		}
 	}
 
-	if contentLength == 0 {
-		return nil, fmt.Errorf("missing Content-Length header")
+	if contentLength <= 0 {
+		return nil, fmt.Errorf("missing or invalid Content-Length header")
 	}
 
 	// Validate content length against maximum
